@@ -17,8 +17,11 @@ import posixpath
 
 from lib.vcommon import coq_list, coq_str
 
+# frequently used member lists (small pool: id collisions between files); every other list member of
+# NeuroMLDocument (impl: describe) is drawn less often and all of them appear in the fixed "all lists" cases
 LISTS = ["ion_channel", "cells", "morphology", "ComponentType", "pulse_generators", "biophysical_properties",
-         "iaf_cells"]
+         "iaf_cells", "networks", "networks", "intracellular_properties"]
+INFO = {}  # member list -> {"has_id", "has_name", "tagged"}, filled by run() from the tree under test
 IDS = ["x", "y", "z", "w"]
 BASENAMES = ["a", "b", "c", "cell", "chan", "net"]
 PREFIX = ["p0", "p1", "p2", "p3"]
@@ -36,13 +39,19 @@ class Gen:
 
     def comp(self, lists=None):
         r = self.rng
-        l = r.choice(lists or LISTS)
+        pool = lists or (LISTS if r.random() < 0.8 or not INFO else sorted(INFO))
+        l = r.choice(pool)
+        return self.mk(l, r.choice(["net0", "net1", "nx"]) if l == "networks" else r.choice(IDS))
+
+    def mk(self, l, ident, idless_ok=True):
+        info = INFO.get(l, {"has_id": l != "ComponentType", "has_name": l == "ComponentType", "tagged": True})
         self.tag += 1
-        if l == "ComponentType":
-            return {"list": l, "idk": "n", "id": r.choice(IDS), "tag": self.tag}
-        if r.random() < 0.06:
-            return {"list": l, "idk": "0", "id": "", "tag": self.tag}
-        return {"list": l, "idk": "s", "id": r.choice(IDS), "tag": self.tag}
+        tag = self.tag if info["tagged"] else -1
+        if not info["has_id"]:
+            return {"list": l, "idk": "n", "id": ident if info["has_name"] else "", "tag": tag}
+        if idless_ok and self.rng.random() < 0.06:
+            return {"list": l, "idk": "0", "id": "", "tag": tag}
+        return {"list": l, "idk": "s", "id": ident, "tag": tag}
 
     def comps(self, lo, hi, lists=None):
         return [self.comp(lists) for _ in range(self.rng.randint(lo, hi))]
@@ -102,6 +111,8 @@ class Gen:
                     break
             else:
                 p = r.choice(dirs) + ["u%d.nml" % i]
+            if i == 0 and r.random() < 0.25 and not p[-1].endswith((".h5", ".hdf5")):
+                p = p[:-1] + [p[-1].rsplit(".", 1)[0] + r.choice([".nml.h5", ".nml.h5", ".h5"])]  # an HDF5 ENTRY file
             paths.append(p)
             kinds.append("h5" if p[-1].endswith((".h5", ".hdf5")) else "xml")
         if r.random() < 0.04 and n > 1:  # content that does not fit the name
@@ -145,7 +156,8 @@ class Gen:
             else:
                 self.tag += 1
                 net = {"list": "networks", "idk": "s", "id": r.choice(["net0", "net1"]), "tag": self.tag}
-                emb = None if (r.random() < 0.25 and not incs) else {"comps": self.comps(0, 2), "incs": incs}
+                emb = None if (r.random() < 0.25 and not incs) else {"comps": [c for c in self.comps(0, 2) if c["list"] != "networks"],
+                                                                         "incs": incs}  # the writer strips networks from the embedded XML
                 files.append({"path": paths[i], "kind": "h5", "nets": [net], "emb": emb})
         if r.random() < 0.75:
             entry = {"file": paths[0], "style": r.choice(["abs", "rel"])}
@@ -167,7 +179,9 @@ class Gen:
             c = r.choice(dirs)
             if c != cwd and c not in cwds:
                 cwds.append(c)
-        case = {"files": files, "dirs": [PREFIX[:i] for i in range(len(PREFIX))] + dirs, "cwd": cwd, "cwds": cwds, "entry": entry, "al": al, "shape": shape}
+        h5_entry = "file" in entry and entry["file"][-1].endswith((".h5", ".hdf5"))
+        opts = [False, True] if h5_entry else [r.random() < 0.3]
+        case = {"opts": opts, "files": files, "dirs": [PREFIX[:i] for i in range(len(PREFIX))] + dirs, "cwd": cwd, "cwds": cwds, "entry": entry, "al": al, "shape": shape}
         case["names"] = names_of(case)
         return case
 
@@ -195,7 +209,7 @@ def H(*segs, abs=False):
     return {"abs": abs, "segs": list(segs)}
 
 
-def fixed_cases():
+def fixed_cases(g):
     """the stored witnesses and the named shapes of the property text; they run first on every run"""
     out = []
     # 0: a file that includes itself
@@ -238,8 +252,32 @@ def fixed_cases():
                           {"path": ["o", "b.nml"], "kind": "xml", "comps": [C("cells", "z", 3)], "incs": []}],
                 "dirs": [[], ["m"], ["o"]], "cwd": ["o"], "cwds": [[], ["m"]],
                 "entry": {"file": ["m", "a.nml"], "style": "abs"}, "al": [], "shape": "chain"})
+    # 6: the stored witness of the known finding: optimized=True on an HDF5 entry file, an included file defines a network
+    #    with the id of the file's own network
+    out.append({"files": [{"path": ["n.nml.h5"], "kind": "h5", "nets": [C("networks", "net0", 1)],
+                           "emb": {"comps": [], "incs": [H("a.nml")]}},
+                          {"path": ["a.nml"], "kind": "xml", "comps": [C("networks", "net0", 2)], "incs": []}],
+                "dirs": [[]], "cwd": [], "cwds": [], "entry": {"file": ["n.nml.h5"], "style": "abs"}, "al": [], "shape": "chain"})
+    # 7-10: EVERY top-level member list (id-less kinds included) defined in included files, one of them reached
+    #    transitively, the second repeating every id: XML entry, string entry, HDF5 entry; all with optimized False and True
+    lists = sorted(INFO) or ["cells", "networks", "ComponentType"]
+    all1 = [g.mk(l, "u", idless_ok=False) for l in lists]
+    all2 = [g.mk(l, "u", idless_ok=False) for l in lists] + [g.mk("networks", "deepnet", idless_ok=False)]
+    own = [g.mk(l, "own", idless_ok=False) for l in lists if l != "networks"]
+    lib = [{"path": ["lib", "all.nml"], "kind": "xml", "comps": all1, "incs": [H("deep", "all2.xml")]},
+           {"path": ["lib", "deep", "all2.xml"], "kind": "xml", "comps": all2, "incs": []}]
+    dirs = [[], ["lib"], ["lib", "deep"], ["w"]]
+    out.append({"files": [{"path": ["top.nml"], "kind": "xml", "comps": own + [C("networks", "topnet", 0)], "incs": [H("lib", "all.nml")]}] + lib,
+                "dirs": dirs, "cwd": ["w"], "cwds": [], "entry": {"file": ["top.nml"], "style": "rel"}, "al": [], "shape": "chain"})
+    out.append({"files": lib, "dirs": dirs, "cwd": ["w"], "cwds": [],
+                "entry": {"string": {"comps": own, "incs": [H("lib", "all.nml")]}, "base": [], "base_style": "abs"}, "al": [], "shape": "chain"})
+    for name in ("top.nml.h5", "top.h5"):
+        out.append({"files": [{"path": [name], "kind": "h5", "nets": [C("networks", "topnet", 0)],
+                               "emb": {"comps": own, "incs": [H("lib", "all.nml")]}}] + lib,
+                    "dirs": dirs, "cwd": ["w"], "cwds": [[]], "entry": {"file": [name], "style": "abs"}, "al": [], "shape": "chain"})
     for c in out:
         c["names"] = names_of(c)
+        c["opts"] = [False, True]
     return out
 
 
@@ -287,14 +325,16 @@ def q_obs(case, run):
 
 
 def q_case(case, cwd, run):
+    opt = bool(run.get("opt")) and "file" in case["entry"]  # the flag has no effect on a string (no HDF5 there)
     e = case["entry"]
     if "file" in e:
         ent = "(EntFile %s)" % q_path(e["file"])
     else:
         ent = "(EntString %s %s)" % (q_x(e["string"]["comps"], e["string"]["incs"]),
                                      "None" if e["base"] is None else "(Some %s)" % q_path(e["base"]))
-    return ("{| k_fs := {| fs_files := %s; fs_dirs := %s |}; k_cwd := %s; k_entry := %s; k_al := %s; k_names := %s; k_obs := %s |}"
+    return ("{| k_fs := {| fs_files := %s; fs_dirs := %s |}; k_cwd := %s; k_entry := %s; k_opt := %s; k_al := %s; k_names := %s; k_obs := %s |}"
             % (coq_list([q_file(f) for f in case["files"]]), coq_list([q_path(d) for d in case["dirs"]]), q_path(cwd), ent,
+               "true" if opt else "false",
                coq_list([q_path(p) for p in case["al"]]), coq_list([coq_str(n) for n in case["names"]]), q_obs(case, run)))
 
 
@@ -350,9 +390,17 @@ def predicate(case, cwd, run, orc):
                     sorted(idw), sorted(set(idg))))
     first = entry_comps(case)
     own = [key_of(c) for c in first if c["idk"] != "n"]
-    for k in set(idg):
+    ent = case["entry"].get("file")
+    own_nets = set()
+    if run.get("opt") and ent and ent[-1].endswith((".h5", ".hdf5")):
+        own_nets = {key_of(c) for f in case["files"] if f["path"] == ent and f["kind"] == "h5" for c in f["nets"]}
+    for k in sorted(set(idg)):
         allowed = max(1, own.count(k))
         if idg.count(k) > allowed:
+            if k in own_nets and idg.count(k) == allowed + 1:
+                bad.append(("C06:id-twice:optimized-entry-own-network", "optimized=True on an HDF5 entry file: its own network is appended "
+                            "without the id test, so an included network with the same id stays next to it", allowed, [k, idg.count(k)]))
+                continue
             bad.append(("C06:id-twice:" + cyc, "a component id appears more than once in a member list", allowed, [k, idg.count(k)]))
             break
     nw = sorted((c["list"], c["id"], c["tag"]) for c in want if c["idk"] == "n")
@@ -413,7 +461,8 @@ def run(ck):
     ck.rule = ("include graphs (chain, tree, diamond, cycle, self loop, mutual, random digraph) over 1-7 XML / .nml.h5 files in "
                "nested directories with colliding file names and ids, hrefs relative to the including directory / to the "
                "working directory / absolute, decorated with ./ and x/../, both entry points, 2-3 working directories each, "
-               "optionally pre-filled already_included; one evaluation = one (graph, working directory) run of the real "
+               "optionally pre-filled already_included, components from all 67 top-level member lists (id-less kinds included), HDF5 "
+               "entry files read with optimized=False and True; one evaluation = one (graph, working directory, optimized) run of the real "
                "loader compared with the model by the kernel; non-trivial = at least one include is followed; distinct by "
                "the full case text")
     ck.trusted = ["Coq 8.16.1 kernel + vm_compute",
@@ -426,8 +475,13 @@ def run(ck):
                       "within one member list either every class has an id member or none has",
                       "the file system does not change during a read"]
     ck.gate_static()
+    d = ck.impl("c06_impl.py", {"describe": True}, timeout=300)
+    INFO.clear()
+    INFO.update({x["list"]: x for x in d["lists"]})
+    ck.extra["member_lists_generated"] = len(INFO)
+    ck.extra["member_lists_unusable"] = d["unusable"]
     g = Gen(ck.rng)
-    cases = fixed_cases() + [g.graph() for _ in range(ck.n(150, 1500))]
+    cases = fixed_cases(g) + [g.graph() for _ in range(ck.n(150, 1500))]
     results = []
     B = 250
     for i in range(0, len(cases), B):
@@ -436,15 +490,15 @@ def run(ck):
     # ---- correspondence: Coq computes the indices that differ
     flat = []  # (case index, cwd, run, oracle)
     for ci, (case, res) in enumerate(zip(cases, results)):
-        for cwd, run_, orc in zip([case["cwd"]] + case["cwds"], res["runs"], res["oracles"]):
-            flat.append((ci, cwd, run_, orc))
+        for run_, orc in zip(res["runs"], res["oracles"]):
+            flat.append((ci, run_["cwd"], run_, orc))
     bad_harness = 0
     coqable = []
     for (ci, cwd, run_, orc) in flat:
         case = cases[ci]
         if run_["outcome"] == "other" or run_["extra_lists"] or (
                 run_["outcome"] == "done" and any(isinstance(p, str) for p in run_["already"])):
-            ck.disagree("Includes.rd", {"case": case, "cwd": cwd}, "(one of Done/Err/OutOfFuel)", run_, note="outcome outside the model")
+            ck.disagree("Includes.rd", {"case": case, "cwd": cwd, "opt": run_["opt"]}, "(one of Done/Err/OutOfFuel)", run_, note="outcome outside the model")
             bad_harness += 1
             continue
         coqable.append((ci, cwd, run_, orc))
@@ -466,7 +520,7 @@ def run(ck):
             follows_old = False
         for k in idx:
             ci, cwd, r, _ = chunk[k]
-            ck.disagree("Includes.rd", {"case": cases[ci], "cwd": cwd}, "see Cases_C06_%d.v case %d" % (fi // 400, k), r,
+            ck.disagree("Includes.rd", {"case": cases[ci], "cwd": cwd, "opt": r["opt"]}, "see Cases_C06_%d.v case %d" % (fi // 400, k), r,
                         note="implementation agrees with the pre-patch model rd_old" if k not in idx_old else "")
     ck.extra["tree_follows_prepatch_model"] = bool(follows_old and ck.disagreements)
     # loads == already (each file is marked exactly when it is opened) for runs that started with an empty list
@@ -486,25 +540,51 @@ def run(ck):
         ck.tally("entry:" + ("file" if "file" in case["entry"] else "string"))
         if any(f["kind"] == "h5" for f in case["files"]):
             ck.tally("with-h5")
-        ck.count(1, nontrivial_key=json.dumps([case["files"], case["entry"], cwd, case["al"]], sort_keys=True) if nfollow > 1 or
+        ck.count(1, nontrivial_key=json.dumps([case["files"], case["entry"], cwd, case["al"], r["opt"]], sort_keys=True) if nfollow > 1 or
                  ("string" in case["entry"] and nfollow > 0) else None,
                  sample={"files": [[P(f["path"]), [P(h["segs"]) if h["abs"] else "/".join(h["segs"]) for h in
                                                    (f.get("incs") if f["kind"] == "xml" else (f.get("emb") or {}).get("incs") or [])]]
                                    for f in case["files"]], "cwd": P(cwd), "entry": case["entry"].get("file", "string"),
-                         "outcome": r["outcome"], "opened": r["loads"]} if ci in (1, 2, 3, 8, 9, 10) and cwd == case["cwd"] else None)
+                         "outcome": r["outcome"], "opened": r["loads"]} if ci in (1, 2, 3, 6, 12, 13) and cwd == case["cwd"] and not r["opt"] else None)
         for key, what, exp, obs in predicate(case, cwd, r, orc):
-            ck.witness(key, what, input={"case": case, "cwd": cwd}, expected=exp, observed=obs)
+            ck.witness(key, what, input={"case": case, "cwd": cwd, "opt": r["opt"]}, expected=exp, observed=obs)
+        if "file" in case["entry"] and case["entry"]["file"][-1].endswith((".h5", ".hdf5")):
+            ck.tally("hdf5-entry:optimized=%s" % r["opt"])
+        if any(c["list"] == "networks" for f in case["files"] if f["kind"] == "xml" for c in f["comps"]):
+            ck.tally("network-defined-in-included-xml")
     # cwd independence: runs of one graph from working directories where no href of a reachable file exists
     for ci, (case, res) in enumerate(zip(cases, results)):
-        free = [(cwd, r) for cwd, r, o in zip([case["cwd"]] + case["cwds"], res["runs"], res["oracles"])
+        free = [(r["cwd"], r) for r, o in zip(res["runs"], res["oracles"])
                 if not o["href_exists_from_cwd"] and not ("string" in case["entry"] and case["entry"]["base"] is None)]
-        for (c1, r1), (c2, r2) in zip(free, free[1:]):
+        pairs = [(a, b) for opt in (False, True) for a, b in zip([x for x in free if x[1]["opt"] == opt], [x for x in free if x[1]["opt"] == opt][1:])]
+        for (c1, r1), (c2, r2) in pairs:
             ck.tally("cwd-pairs-compared")
             a = (r1["outcome"], r1["lists"], r1["loads"], r1["already"])
             b = (r2["outcome"], r2["lists"], r2["loads"], r2["already"])
             if a != b and "recursion" not in (r1["outcome"], r2["outcome"]):
                 ck.witness("C06:cwd-dependent", "the result depends on the working directory although no href resolves from either",
                            input={"case": case, "cwds": [c1, c2]}, expected=a, observed=b)
+    # optimized flag: same outcome, same files, same components per member list (as multisets)
+    for ci, (case, res) in enumerate(zip(cases, results)):
+        by = {}
+        for r in res["runs"]:
+            by.setdefault(json.dumps(r["cwd"]), {})[r["opt"]] = r
+        for k, d2 in by.items():
+            if len(d2) == 2:
+                ck.tally("optimized-pairs-compared")
+                a, b = d2[False], d2[True]
+                la = {n: sorted(map(json.dumps, v)) for n, v in a["lists"].items()}
+                lb = {n: sorted(map(json.dumps, v)) for n, v in b["lists"].items()}
+                if (a["outcome"], a["loads"], a["already"]) != (b["outcome"], b["loads"], b["already"]) or la != lb:
+                    dup = [x for x in predicate(case, a["cwd"], b, [o for r, o in zip(res["runs"], res["oracles"]) if r is b][0])
+                           if x[0] == "C06:id-twice:optimized-entry-own-network"]
+                    if dup and (a["outcome"], a["loads"], a["already"]) == (b["outcome"], b["loads"], b["already"]) and \
+                            all(la[n] == lb[n] for n in la if n != "networks"):
+                        continue  # the known collision, reported by the predicate under its own key
+                    ck.witness("C06:optimized-flag-changes-result", "optimized=True and optimized=False return different unions",
+                               input={"case": case, "cwd": a["cwd"], "opt": True},
+                               expected={"outcome": a["outcome"], "lists": {n: v for n, v in a["lists"].items() if v}},
+                               observed={"outcome": b["outcome"], "lists": {n: v for n, v in b["lists"].items() if v}})
     ck.extra["graphs"] = len(cases)
     ck.extra["runs_outside_model"] = bad_harness
 
@@ -525,12 +605,13 @@ def replay(ck, data):
     case = dict(case)
     cw = inp.get("cwds") or [inp.get("cwd", case["cwd"])]
     case["cwd"], case["cwds"] = cw[0], cw[1:]
+    case["opts"] = [bool(inp["opt"])] if "opt" in inp else case.get("opts", [False])
     out = ck.impl("c06_impl.py", {"cases": [case], "recursion_limit": 400, "guard_s": 20})
     res = out["results"][0]
     bad = []
-    for cwd, r, o in zip(cw, res["runs"], res["oracles"]):
-        bad += predicate(case, cwd, r, o)
-    if len(res["runs"]) == 2 and (res["runs"][0]["outcome"], res["runs"][0]["lists"]) != (res["runs"][1]["outcome"], res["runs"][1]["lists"]):
+    for r, o in zip(res["runs"], res["oracles"]):
+        bad += predicate(case, r["cwd"], r, o)
+    if len(res["runs"]) == 2 and len(cw) == 2 and (res["runs"][0]["outcome"], res["runs"][0]["lists"]) != (res["runs"][1]["outcome"], res["runs"][1]["lists"]):
         bad.append(("C06:cwd-dependent", "results differ between the two working directories", None, None))
     print(json.dumps({"stored": {k: data.get(k) for k in ("key", "what", "expected", "observed")},
                       "now": [{"outcome": r["outcome"], "opened": r["loads"][:12], "files_opened": len(r["loads"]), "lists": r["lists"]}
